@@ -340,6 +340,9 @@ impl Prop for C19 {
                                 .filter_map(|it| if let Item::Commit(c) = it { Some(c) } else { None })
                                 .flat_map(|c| c.diffstat.iter())
                                 .filter_map(|l| l.split(" | ").next().map(|p| p.trim().to_string()))
+                                // (any other input line of that shape - a line of a commit message such as
+                                // `    $ x | 5 +` - is a diffstat line to delta just the same)
+                                .chain(String::from_utf8_lossy(&input).lines().filter(|l| l.starts_with(' ') && l.contains(" | ")).filter_map(|l| l.split(" | ").next().map(|p| p.trim().to_string())))
                                 .collect();
                             if !stat_paths.iter().any(|p| abs(p) == want_abs) {
                                 return fail(format!("the diffstat line shows `{}`, which names `{}`: not a file of this commit", text.trim(), want_abs));
